@@ -125,6 +125,7 @@ static Plan gen_c04(uint64_t seed, const std::string &tier) {
     if (r.chance(1, 8)) w.socks["/run/snoopy-0.sock"].state = 1;
     if (r.chance(1, 10)) w.socks.erase("/dev/log");
     if (r.chance(1, 6)) { FileNode f; f.content = "earlier line\n"; w.files["/var/log/snoopy.log"] = f; }
+    else if (r.chance(1, 6)) { FileNode f; f.kind = 4; f.fifo_free = r.chance(1, 2) ? 0 : (long)r.range(1, 5000); w.files["/var/log/snoopy.log"] = f; }   // FIFO read by a slow log collector
     for (int k = 0; k < 14; k++) if (r.chance(1, 2) && !w.environ_null) w.env.push_back("K" + std::to_string(k) + "=val" + gen_token(r, 0, 40, 0));
     std::string marker = "R" + std::to_string(seed % 100000) + "_";
     CfgSpec s;
@@ -178,6 +179,7 @@ static void describe_c04(const Plan &p, const RunResult &r, J &line) {
         if (cv.op->success && j.exp.cfg.output == "stdout" && cv.w.stdout_kind != 0) line.set("p_success_stdout_buffered", true);
         if (len >= 65536) line.set("p_msg_ge_64k", true);
         if (!j.exp.sink_usable) line.set("p_sink_unusable", true);
+        { auto it = cv.w.files.find("/var/log/snoopy.log"); if (it != cv.w.files.end() && it->second.kind == 4 && j.exp.sink == "file:/var/log/snoopy.log") line.set("p_fifo_slow_reader", true); }
     }
     line.set("sig", sig); line.set("nontrivial", nontrivial);
 }
